@@ -58,7 +58,14 @@ impl Ctx {
             return (input, outs, text.len() > n);
         }
         let replaced = variant == 1;
-        let mut store = if variant == 2 {
+        // variant 4: as variant 2, but the configuration arrives after the ANNOTATIONS as well
+        // (AnnotationStore::set_config on the annotated store)
+        let mut store = if variant == 4 {
+            AnnotationStore::default()
+                .with_id("c12")
+                .with_resource(TextResourceBuilder::new().with_id("r").with_text(text.clone()))
+                .unwrap()
+        } else if variant == 2 {
             AnnotationStore::default()
                 .with_id("c12")
                 .with_resource(TextResourceBuilder::new().with_id("r").with_text(text.clone()))
@@ -67,23 +74,33 @@ impl Ctx {
         } else if replaced {
             let other: String = "x\u{e9}\u{1f600}\u{4e2d} ".chars().cycle().take(37).collect();
             let resource = TextResource::new("r", cfg.clone()).with_string(other).with_string(text.clone());
-            let mut st = AnnotationStore::new(cfg).with_id("c12");
+            let mut st = AnnotationStore::new(cfg.clone()).with_id("c12");
             st.insert(resource).unwrap();
             st
         } else {
-            AnnotationStore::new(cfg)
+            AnnotationStore::new(cfg.clone())
                 .with_id("c12")
                 .with_resource(TextResourceBuilder::new().with_id("r").with_text(text.clone()))
                 .unwrap()
         };
+        // the ranges that became known selections (decided here, not by asking the library later)
+        let mut known: Vec<(usize, usize)> = Vec::new();
         for (b, e) in &anns {
-            let _ = guard(|| {
-                store.annotate(
-                    AnnotationBuilder::new()
-                        .with_target(SelectorBuilder::textselector("r", Offset::simple(*b, *e)))
-                        .with_data("s", "k", "v"),
-                )
+            let r = guard(|| {
+                store
+                    .annotate(
+                        AnnotationBuilder::new()
+                            .with_target(SelectorBuilder::textselector("r", Offset::simple(*b, *e)))
+                            .with_data("s", "k", "v"),
+                    )
+                    .is_ok()
             });
+            if r == Some(true) {
+                known.push((*b, *e));
+            }
+        }
+        if variant == 4 {
+            store.set_config(cfg.clone());
         }
         if shrink {
             store.shrink_to_fit(true);
@@ -123,8 +140,18 @@ impl Ctx {
                     });
                 }
             }
-            if let Some(item) = ts.as_resultitem() {
+            let expected_bound = known.contains(&(*sb, *se));
+            if expected_bound {
                 model_sels.push(l(vec![a(*sb as i64), a(*se as i64)]));
+            }
+            if expected_bound && ts.as_resultitem().is_none() {
+                // an annotated range the resource no longer knows: the outputs of the item are missing
+                outs.push(l(vec![a(7)]));
+            }
+            if let Some(item) = ts.as_resultitem() {
+                if !expected_bound {
+                    outs.push(l(vec![a(8)]));
+                }
                 for p in 0..(se - sb) + 3 {
                     outs.push(res_sx(guard(|| item.utf8byte(p))));
                 }
@@ -144,7 +171,7 @@ impl Ctx {
             }
         }
         // the model is told the interval the index was built with
-        let built_with = if variant == 2 { a(100) } else { req.nth(0).clone() };
+        let built_with = if variant == 2 || variant == 4 { a(100) } else { req.nth(0).clone() };
         let input = l(vec![built_with, req.nth(2).clone(), req.nth(3).clone(), l(model_sels)]);
         (input, outs, text.len() > n)
     }
@@ -198,7 +225,7 @@ pub fn generate(out: &mut Out, tier: &str, seed: u64) {
                         text_sx(&text),
                         if with_anns { l(anns.clone()) } else { l(vec![]) },
                         l(sels.clone()),
-                        a(((ti + shrink as usize) % 4) as i64),
+                        a(((ti + shrink as usize) % 5) as i64),
                     ]);
                     // a panic while the store is built (none in the model) shows as a case whose
                     // outputs are missing, with this request as the failing input
@@ -213,6 +240,6 @@ pub fn generate(out: &mut Out, tier: &str, seed: u64) {
     }
 }
 
-pub const RULE: &str = "texts of length 0..=12 (thorough 16) over an alphabet with 1-, 2-, 3- and 4-byte characters; every codepoint position 0..=len+2 and every byte offset 0..=bytes+2 on the resource, and the relative conversions + text on sub-selections (3 random ones per text; thorough: a third of all sub-ranges), each under milestone_interval in {0,1,2,3,7,100} x shrink_to_fit on/off x before/after random annotations populated the position index; the annotated ranges are probed through ResultItem<TextSelection> as well; in a quarter of the cases the resource had another (37-codepoint, mixed) text first and got this one by a second with_string(); in another quarter the configuration is given to the store after the resource was added (with_config on the populated store); in a quarter the text is read from a plain-text file by TextResource::from_file and the resource is asked on its own, outside any store. One evaluation = one conversion. Non-trivial = text contains a multi-byte character; distinct = distinct (interval, text, annotations, selections) inputs.";
+pub const RULE: &str = "texts of length 0..=12 (thorough 16) over an alphabet with 1-, 2-, 3- and 4-byte characters; every codepoint position 0..=len+2 and every byte offset 0..=bytes+2 on the resource, and the relative conversions + text on sub-selections (3 random ones per text; thorough: a third of all sub-ranges), each under milestone_interval in {0,1,2,3,7,100} x shrink_to_fit on/off x before/after random annotations populated the position index; the annotated ranges are probed through ResultItem<TextSelection> as well; in a fifth of the cases the resource had another (37-codepoint, mixed) text first and got this one by a second with_string(); in another fifth the configuration is given to the store after the resource was added (with_config on the populated store); in a fifth the configuration is set on the store after the annotations were made (set_config); in a fifth the text is read from a plain-text file by TextResource::from_file and the resource is asked on its own, outside any store. One evaluation = one conversion. Non-trivial = text contains a multi-byte character; distinct = distinct (interval, text, annotations, selections) inputs.";
 
 pub const EXHAUSTIVE: bool = false;
